@@ -9,6 +9,7 @@ import (
 	"io"
 	"os"
 	"time"
+	_ "time/tzdata"
 
 	"verif/harness/ops"
 )
@@ -26,11 +27,20 @@ func main() {
 	var q struct {
 		Op    ops.Op `json:"op"`
 		ZoneS int    `json:"zone_offset_s"`
+		Zone  string `json:"zone"`
 	}
 	if err := json.Unmarshal(in, &q); err != nil {
 		fmt.Fprintln(os.Stderr, "plainworker:", err)
 		os.Exit(2)
 	}
 	time.Local = time.FixedZone("SIM", q.ZoneS)
+	if q.Zone != "" {
+		loc, err := time.LoadLocation(q.Zone)
+		if err != nil {
+			fmt.Fprintln(os.Stderr, "plainworker:", err)
+			os.Exit(2)
+		}
+		time.Local = loc
+	}
 	os.Stdout.WriteString(ops.Run(q.Op))
 }
